@@ -819,7 +819,7 @@ def reader_sequences(ctx, rid):
                     out = "NeedMore"
                 elif leaf.startswith("return Result::Ok("):
                     out = "Ok"
-                elif is_async and re.search(r"^return Result::Err\((apply\(closure:.*,)?err\(await\(", leaf):
+                elif is_async and re.search(r"^return Result::Err\((apply\(closure:.*,|[\w:<>#]+\()?err\(await\(", leaf):
                     out = "NeedMore"   # EOF / IO error of the source = the async form of `incomplete`
                 else:
                     out = "?" + leaf[:60]
@@ -847,10 +847,10 @@ def poll_loops(ctx, rid):
     A = ctx.A
     P = "wtransport_proto::bytes::r#async::"
     spec = {
-        "GetVarint<R>": ("AsyncRead::poll_read", {r"Range\(0,1\)", r"Range\(self\.offset,self\.varint_size\)"}, r"self\.varint_size"),
-        "GetBuffer<R>": ("AsyncRead::poll_read", {r"RangeFrom\(self\.offset\)"}, r"<impl \[T\]>::len\(self\.buffer\)"),
-        "PutVarint<W>": ("AsyncWrite::poll_write", {r"Range\(self\.offset,self\.varint_size\)"}, r"self\.varint_size"),
-        "PutBuffer<W>": ("AsyncWrite::poll_write", {r"RangeFrom\(self\.offset\)"}, r"<impl \[T\]>::len\(self\.buffer\)"),
+        "GetVarint<R>": ("AsyncRead::poll_read", {r"0\.\.1", r"self\.offset\.\.self\.varint_size"}, r"self\.varint_size"),
+        "GetBuffer<R>": ("AsyncRead::poll_read", {r"self\.offset\.\."}, r"<impl \[T\]>::len\(self\.buffer\)"),
+        "PutVarint<W>": ("AsyncWrite::poll_write", {r"self\.offset\.\.self\.varint_size"}, r"self\.varint_size"),
+        "PutBuffer<W>": ("AsyncWrite::poll_write", {r"self\.offset\.\."}, r"<impl \[T\]>::len\(self\.buffer\)"),
     }
     for ty, (prim, ranges, limit) in spec.items():
         f = A.fn("<%s%s as std::future::Future>::poll" % (P, ty))
@@ -858,9 +858,9 @@ def poll_loops(ctx, rid):
         seen = set()
         for p in ps:
             for e in event_strs(p):
-                m = re.match(r"^%s\(self\.(reader|writer),cx,<impl Index(Mut)?<I> for \[T(; N)?\]>::index(_mut)?\(self\.buffer,(.*)\)\)$" % re.escape(prim), e)
+                m = re.match(r"^%s\(self\.(reader|writer),cx,self\.buffer\[(.*)\]\)$" % re.escape(prim), e)
                 if m:
-                    seen.add(m.group(5))
+                    seen.add(m.group(2))
                 elif e.startswith(prim + "("):
                     seen.add("?" + e[:120])
         okr = bool(seen) and all(any(re.fullmatch(r, s) for r in ranges) for s in seen) and len(seen) == len(ranges)
@@ -875,7 +875,7 @@ def poll_loops(ctx, rid):
             for e in event_strs(p):
                 m = re.match(r"^store self\.offset := (.*)$", e)
                 if m:
-                    adv.add(re.sub(r"%s\(.*?\)\) as Ready\)\.0\)" % re.escape(prim), "N)", m.group(1)))
+                    adv.add(re.sub(r"%s\(.*?\)+ as Ready\)\.0\)" % re.escape(prim), "N)", m.group(1)))
         want = {"AddWithOverflow(self.offset,ok((N)).0"} | ({"1"} if ty == "GetVarint<R>" else set())
         ctx.check(rid, "%s offset advance" % ty, adv == want, "%s::poll advances offset by %s, expected `offset += returned count`%s" % (ty, sorted(adv), " and `offset = 1` after the first byte" if ty == "GetVarint<R>" else ""), where(f))
         # completion
